@@ -1042,6 +1042,14 @@ func (s *Sim) Fail(class, format string, args ...interface{}) {
 	}
 }
 
+// fatal is what the Go runtime's "fatal error" is under the simulator: unlike a
+// panic it cannot be recovered by the code under test - the process is gone.
+func (s *Sim) fatal(msg string) {
+	buf := make([]byte, 16<<10)
+	stack := trimStack(string(buf[:runtime.Stack(buf, false)]))
+	s.Fail("fatal-error", "fatal error: %s (the Go runtime ends the process here; no recover() can catch it)\n%s", msg, stack)
+}
+
 // Failed reports whether a violation has been recorded.
 func (s *Sim) Failed() bool { return s.fail != nil }
 
